@@ -148,7 +148,10 @@ def run(rep, tier):
         rs = lib.tlc("abi", "MC_WasmAbi", "wasm_sim.cfg", workers=1, coverage=False, simulate=300, depth=8, timeout=600)
         more = [c for c in rs.printed.get("CASE", []) if len(c["fields"]) >= 4]
         rng.shuffle(more)
-        cases = cases + more[:1500]
+        # 23 field types: all 552 structs of <= 2 fields, a 5000-struct sample of the 12 167 with 3 fields, simulated longer ones
+        short = [c for c in cases if len(c["fields"]) <= 2]
+        three = [c for c in cases if len(c["fields"]) == 3]
+        cases = short + three[:5000] + more[:1500]
     total = 0
     for abi in ("legacy", "spec"):
         total += run_abi(rep, tier, cases, abi, wd, rng)
@@ -177,7 +180,7 @@ def run_abi(rep, tier, cases, abi, wd, rng):
     p = os.path.join(wd, "structs_%s.rs" % abi)
     open(p, "w").write(src)
     out = os.path.join(wd, "js_" + abi)
-    t = lib.run_tool("js", p, out, config=["js.abi=" + abi])
+    t = lib.run_tool("js", p, out, config=["js.abi=" + abi], timeout=1800)
     if t["rc"] != 0:
         rep.violation({"abi": abi, "what": "js backend failed on the struct catalogue", "panic": (re.findall(r"panicked at [^\n]*\n([^\n]*)", t["stderr"]) or ["?"])[0][:120]},
                       {"stderr": t["stderr"][-2000:]})
